@@ -346,9 +346,24 @@ def desugar_conditional_with(fn):
         return isinstance(e, ast.Call) and not e.args and not e.keywords \
             and ast.unparse(e.func).split(".")[-1] == "nullcontext"
 
+    # `if c: x = A` / `else: x = B` is the conditional expression
+    chosen = {}
+    for n in ast.walk(fn):
+        if isinstance(n, ast.If) and len(n.body) == 1 and len(
+                n.orelse) == 1 and all(
+                    isinstance(b, ast.Assign) and len(b.targets) == 1 and
+                    isinstance(b.targets[0], ast.Name)
+                    for b in (n.body[0], n.orelse[0])) and \
+                n.body[0].targets[0].id == n.orelse[0].targets[0].id:
+            chosen.setdefault(n.body[0].targets[0].id, []).append(
+                ast.IfExp(n.test, n.body[0].value, n.orelse[0].value))
+
     def split(e):
         if isinstance(e, ast.Name) and len(defs.get(e.id, [])) == 1:
             e = defs[e.id][0]
+        elif isinstance(e, ast.Name) and len(defs.get(e.id, [])) == 2 and \
+                len(chosen.get(e.id, [])) == 1:
+            e = chosen[e.id][0]
         if isinstance(e, ast.IfExp):
             if is_null(e.body) and not is_null(e.orelse):
                 return ast.UnaryOp(ast.Not(), acopy(e.test)), e.orelse
